@@ -68,7 +68,7 @@ func vShellChunk(tp *verifsim.Tape, traceLog bool) ([]byte, string) {
 }
 
 func vUserChunk(tp *verifsim.Tape, existing string) ([]byte, string) {
-	switch tp.Pick("in.kind", 4, 2, 2, 1, 1) {
+	switch tp.Pick("in.kind", 4, 2, 2, 2, 1) {
 	case 0:
 		b := tp.Bytes("in.bin", 1+tp.Draw("in.n", 40))
 		return b, "binary"
@@ -79,7 +79,10 @@ func vUserChunk(tp *verifsim.Tape, existing string) ([]byte, string) {
 		return []byte([]string{"/no/such/file ", "'/no/such/file with space' ", "/etc/nonexistent-zz /tmp/nonexistent-yy ", "/tmp/x", "'/tmp/unterminated "}[tp.Draw("in.path", 5)]), "path-like"
 	case 3:
 		// an existing path, but not in the dragged-path shape (no trailing space / extra text)
-		return []byte([]string{existing, "cat " + existing + " ", existing + " | wc ", " " + existing + " "}[tp.Draw("in.exist", 4)]), "existing-path-not-drag"
+		q := vShellQuote(existing)
+		return []byte([]string{existing, "cat " + existing + " ", existing + " | wc ", " " + existing + " ",
+			// a list in the dragged shape in which not every path exists (cp-style paste): not a drag
+			q + " /no/such/newname ", "/no/such/file " + q + " ", q + " " + q + ".does-not-exist ", "'/no/such dir/x' " + q + " "}[tp.Draw("in.exist", 8)]), "existing-path-not-drag"
 	default:
 		return []byte("\x1b[200~pasted text\x1b[201~"), "bracketed-paste"
 	}
@@ -95,11 +98,11 @@ func vScenarioC05(rc *runCtx) {
 	history := tp.Pick("c05.history", 4, 3, 2, 1) // number of preceding transfers
 	// further history: a drag upload that never became a transfer (no trz on the server), or a zmodem
 	// session that ended in an error
-	extra := tp.Pick("c05.extra", 5, 2, 2)
+	extra := tp.Pick("c05.extra", 5, 2, 2, 2)
 	if extra == 1 {
 		fo.DetectDragFile = true
 	}
-	if extra == 2 {
+	if extra == 2 || extra == 3 {
 		fo.EnableZmodem = true
 	}
 	cfg := vDrawConfig(tp, false)
@@ -188,6 +191,31 @@ func vScenarioC05(rc *runCtx) {
 			x.down[0].Write([]byte("rz waiting to receive.\r**\x18B0100000023be50\r\x8a\x11"))
 		})
 		x.settle(4 * time.Second)
+	}
+	if extra == 3 {
+		// a zmodem start header, and within the 100 ms the client waits for exactly this the remote rz gives up
+		// with a complaint (no cancel bytes) and the shell prompt: that text is ordinary output again
+		endings = append(endings, "zmodem-server-gives-up")
+		complaint := []byte("rz: cannot open /dev/tty: Permission denied\r\n$ ")
+		shownFrom := 0
+		// the complaint travels within one read, like the header (the client looks at each read on its own)
+		prevAtomic := x.down[0].Atomic
+		x.down[0].Atomic = func(d []byte) bool {
+			return bytes.Contains(d, []byte("cannot open")) || (prevAtomic != nil && prevAtomic(d))
+		}
+		w.Go("zm", nil, func() {
+			x.down[0].Write([]byte("rz waiting to receive.\r**\x18B0100000023be50\r\x8a\x11"))
+			verifsim.Sleep(time.Duration(20+tp.Draw("c05.giveup", 70)) * time.Millisecond)
+			shownFrom = x.term.NSentInt()
+			x.down[0].Write(complaint)
+		})
+		x.settle(4 * time.Second)
+		t, _, _ := x.term.Snapshot()
+		if !bytes.Contains(t[shownFrom:], complaint) {
+			rc.violate("output", "C05:output-swallowed:zmodem-giveup", "the remote rz gave up right after its start header with %q (no cancel bytes): that text never reached the terminal (terminal got %s); options drag=%v trace=%v zmodem=%v osc52=%v",
+				complaint, vQuote(t[shownFrom:], 100), fo.DetectDragFile, fo.DetectTraceLog, fo.EnableZmodem, fo.EnableOSC52)
+			return
+		}
 	}
 	// drain window after the last transfer, then the probe phase
 	x.settle(1500 * time.Millisecond)
@@ -361,6 +389,10 @@ func vGenTrigger(tp *verifsim.Tape, seq int) *vTrig {
 }
 
 func vScenarioC06(rc *runCtx) {
+	if rc.param("relaymode", "0") == "1" {
+		vC06Relay(rc)
+		return
+	}
 	tp := rc.tape
 	w := rc.w
 	// a filter whose server side is scripted: every ACT is answered with a fail line
